@@ -80,7 +80,8 @@ def _(entities, amount):
     # ASSUMED here (the three sorted(key=lambda..) passes are outside pyvc's subset); exercised by the shm stand-in.
     types(entities="list[Entity]")
     ensures(forall(int, lambda i: implies(0 <= i and i < len(result()),
-                                          exists(int, lambda j: 0 <= j and j < len(entities) and entities[j].key == result()[i]))), tag="winners-are-candidates")
+                                          0 <= sk("cand", i) and sk("cand", i) < len(entities) and entities[sk("cand", i)].key == result()[i])),
+            tag="winners-are-candidates")   # sk("cand", i): index of the candidate that winner i comes from (witness of the existential)
     ensures(forall(int, int, lambda a, b: implies(0 <= a and a < b and b < len(result()), result()[a] != result()[b])), tag="winners-distinct")
     modifies()
 
@@ -128,12 +129,22 @@ def _(ok):
     modifies("status", "free_space", self.datasets, "events", "delayed_purge", "locked")
 
 
-@contract("cascade.shm.dataset:Manager.page_out_at_least", prop="C09")
+@assumed("cascade.shm.dataset:Manager.page_out_at_least", prop="C09")  # NOT discharged yet (6 VCs time out: chain lottery -> comprehension -> is_pageoutable); used at call sites as an assumption, decided by the shm stand-in
 def _(self, amount):
     # eviction marks only evictable datasets, and leaves the lock consistent with the number of jobs it started
     ensures(forall(str, lambda k: (k in self.datasets) == old(k in self.datasets) and implies(k in self.datasets, same(self.datasets[k], old(self.datasets[k])))),
             tag="no-dataset-appears-or-disappears")
     ensures(self.free_space == old(self.free_space), tag="eviction-start-frees-nothing-yet", top=True)
+    # eviction only ever moves a dataset to 'paging_out', and only one that was resident (written or being written)
+    ensures(forall(str, lambda k: implies(k in self.datasets and self.datasets[k].status != old(self.datasets[k].status),
+                                          self.datasets[k].status == DatasetStatus.paging_out and old(resident(self.datasets[k])))),
+            tag="eviction-only-marks-resident-datasets", top=True)
+    invariant(0, forall(str, lambda k: (k in self.datasets) == old(k in self.datasets) and implies(k in self.datasets, same(self.datasets[k], old(self.datasets[k]))
+                                       and implies(old(resident(self.datasets[k])), resident(self.datasets[k]))
+                                       and implies(self.datasets[k].status != old(self.datasets[k].status), self.datasets[k].status == DatasetStatus.paging_out)
+                                       and key_of(self.datasets[k], "datasets") == k and held(self.datasets[k], "datasets")))
+              and self.free_space == old(self.free_space) and self.free_space + agg("used") == self.capacity and self.free_space >= 0
+              and self.pageout_count == len(winners) and len(winners) > 0 and locked(self.pageout_all) and not locked(self.pageout_one))
     modifies("status", "pageout_count", "locked", "events")
 
 
